@@ -60,6 +60,8 @@ def _ops(n):
         alpha.map(lambda a: ['predict_scaled', float(a)]),
         st.just(['get_pva']), st.just(['get_time']),
         _pva().map(lambda p: ['set_pva', p]),
+        st.tuples(_pva(), st.sampled_from(['none', 'first', 'other', 'int'])).map(
+            lambda t: ['set_pva', t[0], t[1]]),
         st.lists(st.floats(-3, 3), min_size=5, max_size=5).map(
             lambda v: ['fix_position', [float(x) for x in v]]),
         st.just(['set_pva_roundtrip']),
@@ -96,6 +98,10 @@ def scenarios(draw, force_2d):
                    theta=draw(st.sampled_from([0.0, 1e-4, 1e-2])),
                    dv=draw(st.sampled_from([0.0, 1e-2, 0.5])),
                    vertical=draw(st.sampled_from([0.0, 5.0, -20.0])))
+    if draw(st.booleans()):
+        perturb['zero_rows'] = sorted(set(draw(st.lists(st.integers(0, n - 1), min_size=1,
+                                                        max_size=3))))
+        perturb['zero_what'] = draw(st.sampled_from(['theta', 'dv', 'both']))
     init = draw(_pva())
     init[0] = float(np.clip(wd['lat'] + 0.01 * init[0] / 75.0, -78, 78))
     init[1] = float(wd['lon'])
